@@ -8,7 +8,6 @@ use crate::refs::chunker::ref_chunks;
 use crate::refs::format as fmt;
 use serde::{Deserialize, Serialize};
 use std::collections::{BTreeMap, HashMap};
-use std::os::unix::fs::OpenOptionsExt;
 use std::path::Path;
 use std::sync::Arc;
 
@@ -98,21 +97,7 @@ pub fn compress_cli_over(dir: &Path, tag: &str, source: &[u8], cfg: &ArchCfg, st
     };
     let mut fifo_writer = None;
     if stdin && pipe_kind == 1 {
-        let path = dir.join(&fifo_name);
-        let _ = std::fs::remove_file(&path);
-        let cpath = std::ffi::CString::new(path.display().to_string()).unwrap();
-        if unsafe { libc::mkfifo(cpath.as_ptr(), 0o600) } != 0 {
-            return Err("harness: mkfifo failed".into());
-        }
-        // the writer's open() blocks until bita opens the pipe for reading; closing it gives bita end-of-file. (If bita never
-        // opens it, the drain below does, so the thread always ends.)
-        let data = source.to_vec();
-        fifo_writer = Some(std::thread::spawn(move || {
-            use std::io::Write;
-            if let Ok(mut f) = std::fs::OpenOptions::new().write(true).open(&path) {
-                let _ = f.write_all(&data);
-            }
-        }));
+        fifo_writer = Some(l2::FifoFeeder::start(&dir.join(&fifo_name), source.to_vec())?);
     }
     let mut args = l2::compress_args(cfg, input_arg, &arch_name, existing.is_some());
     // metadata options go before the positional output
@@ -141,22 +126,8 @@ pub fn compress_cli_over(dir: &Path, tag: &str, source: &[u8], cfg: &ArchCfg, st
         spec.env = h.env(&log);
     }
     let r = l2::run_bita(dir, &spec);
-    if let Some(t) = fifo_writer {
-        // if bita never read the pipe to its end, drain it so that the writer thread finishes
-        if let Ok(mut f) = std::fs::OpenOptions::new().read(true).custom_flags(libc::O_NONBLOCK).open(dir.join(&fifo_name)) {
-            use std::io::Read;
-            let mut sink = vec![0u8; 1 << 16];
-            let t0 = std::time::Instant::now();
-            while !t.is_finished() && t0.elapsed().as_secs() < 20 {
-                if !matches!(f.read(&mut sink), Ok(n) if n > 0) {
-                    std::thread::sleep(std::time::Duration::from_millis(2));
-                }
-            }
-        }
-        if t.is_finished() {
-            let _ = t.join();
-        }
-        let _ = std::fs::remove_file(dir.join(&fifo_name));
+    if let Some(f) = fifo_writer {
+        f.finish();
     }
     if r.timed_out {
         return Err(format!("[timeout] bita compress did not finish: {}", r.describe()));
